@@ -37,12 +37,24 @@ def harness_files():
     return out
 
 
+def src_of(rel):
+    """Source file a harness file is attached to: 'parser/stream.int.rs' -> 'parser/stream.rs'."""
+    return rel[:-len(".int.rs")] + ".rs" if rel.endswith(".int.rs") else rel
+
+
+def modname(rel):
+    """A source file can carry two harness modules: `<f>.rs` (harnesses that use the API the other modules of the
+    crate use) -> verif_kani, and `<f>.int.rs` (one-step lemmas that call private helper functions and therefore
+    depend on their signatures) -> verif_kani_int.  The runner can drop the latter when it no longer compiles."""
+    return "verif_kani_int" if rel.endswith(".int.rs") else "verif_kani"
+
+
 def module_path(rel):
     """'protocol/varint.rs' -> 'protocol::varint::verif_kani'; 'lib.rs' -> 'verif_kani'."""
-    parts = rel[:-3].split("/")
+    parts = src_of(rel)[:-3].split("/")
     if parts[-1] in ("mod", "lib"):
         parts = parts[:-1]
-    return "::".join(parts + ["verif_kani"])
+    return "::".join(parts + [modname(rel)])
 
 
 def make_scratch(run_id, files, patches=()):
@@ -82,12 +94,12 @@ def make_scratch(run_id, files, patches=()):
     for rel in sorted(set(files) | {"lib.rs"}):
         if rel not in hf:
             raise SystemExit("no harness file for " + rel)
-        src = os.path.join(crate, "src", rel)
+        src = os.path.join(crate, "src", src_of(rel))
         if not os.path.exists(src):
             # the repository no longer has this file: harness cannot be attached
             raise FileNotFoundError(src)
         with open(src, "a") as f:
-            f.write("\n#[cfg(kani)] %s pub(crate) mod verif_kani { include!(\"%s\"); }\n" % (ALLOW, hf[rel]))
+            f.write("\n#[cfg(kani)] %s pub(crate) mod %s { include!(\"%s\"); }\n" % (ALLOW, modname(rel), hf[rel]))
     SNAP[dst] = hf
     return dst, crate
 
